@@ -134,7 +134,7 @@ def gen_tree(rnd, idx):
     t.incdirs = ['inc%d' % (i + 1) for i in range(ninc)]
     if ninc and rnd.random() < 0.3:
         t.incdirs[0] = maindir + '/vendor'          # an -i directory below the project
-    t.dirs.update([maindir, 'decoy', 'elsewhere'] + t.incdirs)
+    t.dirs.update([maindir, 'decoy', 'decoy/deep', 'elsewhere'] + t.incdirs)
     t.compress = rnd.random() < 0.5
     maxdepth = rnd.choice([0, 1, 1, 2, 2, 3, 3, 4])
     fail = None
@@ -176,7 +176,7 @@ def gen_tree(rnd, idx):
         searched = t.incdirs + [incl_dir]
         del added[:]
         if how == 'same':
-            target, written = incl_dir + '/' + name, name
+            target, written = incl_dir + '/' + name, (name if rnd.random() < 0.8 else './' + name)
             if depth >= 1 and incl_dir != maindir and rnd.random() < 0.7:
                 # only the INCLUDED file's own directory has the right one; a shadow sits next to main
                 add_shadow(maindir, name, 'nextToMain')
@@ -403,8 +403,17 @@ def materialise(t, root):
             if len(parts) != 2:
                 continue
             rel = parts[1].strip('"\'').replace(ROOT, root)
-            if os.path.isabs(rel) or rel.startswith('..'):
+            if os.path.isabs(rel):
                 continue
+            deep = os.path.join(decoy, 'deep')
+            os.makedirs(deep, exist_ok=True)
+            if rel.startswith('..'):
+                # a parent-relative include: what a lookup relative to the working directory decoy/deep would find
+                dp0 = os.path.normpath(os.path.join(deep, rel))
+                if not dp0.startswith(decoy + os.sep):
+                    continue
+            else:
+                dp0 = None
             found = None
             for d in [os.path.join(root, x) for x in t.incdirs] + [os.path.join(root, os.path.dirname(p))]:
                 if os.path.isfile(os.path.join(d, rel)):
@@ -413,15 +422,15 @@ def materialise(t, root):
             if found is None:
                 continue
             size = os.path.getsize(found)
-            dp = os.path.join(decoy, rel)
-            os.makedirs(os.path.dirname(dp), exist_ok=True)
-            with open(dp, 'wb') as f:
-                if rel.endswith('.bin'):
-                    src = open(found, 'rb').read()
-                    f.write(bytes(b ^ 0xff for b in src))
-                else:
-                    f.write((b'#' * max(size - 1, 0) + b'\n')[:size] if size else b'')
-            n += 1
+            for dp in ([dp0] if dp0 else [os.path.join(decoy, rel), os.path.join(deep, rel)]):
+                os.makedirs(os.path.dirname(dp), exist_ok=True)
+                with open(dp, 'wb') as f:
+                    if rel.endswith('.bin'):
+                        src = open(found, 'rb').read()
+                        f.write(bytes(b ^ 0xff for b in src))
+                    else:
+                        f.write((b'#' * max(size - 1, 0) + b'\n')[:size] if size else b'')
+                n += 1
     return n
 
 
@@ -512,7 +521,7 @@ def check_tree(t, with_cli=False, repo=None):
         main_abs = os.path.join(root, t.main)
         maindir = os.path.dirname(main_abs)
         incs = [os.path.join(root, d) for d in t.incdirs]
-        cwds = [root, os.path.join(root, 'decoy'), os.path.join(root, 'elsewhere'), maindir, '/']
+        cwds = [root, os.path.join(root, 'decoy'), os.path.join(root, 'decoy', 'deep'), os.path.join(root, 'elsewhere'), maindir, '/']
         flat = splice(t, root)
         reqs = []
         for compress in ([t.compress] if t.expect != 'ok' else [False, True]):
